@@ -27,7 +27,9 @@ META_TABLES = ('_grist_Tables', '_grist_Tables_column', '_grist_Views', '_grist_
 
 
 def strategy(tier):
-  return st.fixed_dictionaries({'h': O.history('schema', 1, 12)})
+  return st.one_of(st.fixed_dictionaries({'h': O.history('schema', 1, 12)}),
+                   st.fixed_dictionaries({'h': O.history('schema', 1, 12)}),
+                   st.fixed_dictionaries({'h': O.history('widgets', 1, 10, focus='widgets')}))
 
 
 def run_case(case):
